@@ -13,8 +13,10 @@ off-diagonal entries have non-zero imaginary parts, and `.state()` is compared e
 with the model, with the Spec of the theorems and with U rho U^dagger for U = Base/Mat.circ_mat.
 Histories on long-lived objects (harness/c01_history.py, model C01/History.v, theorems C01/PropsHistory.v): a second
 density-matrix execution after parameter updates through the circuit / the gate / an alias circuit must be U_new rho U_new^dagger.
+ * round 5 (harness/c01_repr.py, C01/PropsLayout.v): labels (Unitary name= / trainable= / check_unitary= colliding with other
+   classes' names, gates.I / gates.Align mixed in) and representations of the initial density matrix / of a Unitary's matrix.
 """
-STATIC = ["C01/PropsDM", "C01/Examples", "C01/PropsHistory", "C01/ExamplesHistory"]
+STATIC = ["C01/PropsDM", "C01/Examples", "C01/PropsHistory", "C01/ExamplesHistory", "C01/PropsLayout"]
 import random
 
 import numpy as np
@@ -514,6 +516,7 @@ def main(run):
                         "unitarity of the gate tables is checked by the table obligations, not here"]
     c01.oblige_theorems(run, "C01/PropsDM")
     c01.oblige_theorems(run, "C01/PropsHistory")
+    c01.oblige_theorems(run, "C01/PropsLayout")
     cases = gen_dm_cases(run, rng)
     outs, good = [], []
     for case in cases:
@@ -534,10 +537,17 @@ def main(run):
     init_check(run, rng)
     fused_dm_check(run, rng)
     gram_check(run, rng)
+    from harness import c01_repr
+    c01_repr.labels_check(run, random.Random(run.seed * 104729 + 21), dm=True)
+    c01_repr.repr_check(run, random.Random(run.seed * 104729 + 22), dm=True)
     from harness import c01_history
     c01_history.check(run, random.Random(run.seed * 7919 + 202), "dm")
     c01.malformed_check(run, rng, dm=True)
     return run.finish(level="proof", rule=(
+        "labels and representations as in C01 (harness/c01_repr.py) with density_matrix=True: Unitary keyword options / colliding "
+        "names / gates.I / gates.Align, and the initial density matrix (general complex, real non-symmetric) as C / Fortran / "
+        "transposed / strided / sliced views, read-only, complex64, float / int, lists, with each kind of gate as FIRST operation "
+        "and through backend.apply_gate_density_matrix: exact equality with the canonical run (itself against the Coq spec); "
         "histories (harness/c01_history.py, density_matrix=True): execute / update parameters through the circuit, the gate, a "
         "fused / shallow / `+` alias / derive (controlled_by 1..3 controls, dagger, on_qubits, invert, deep copy) / execute again on "
         "mixed, pure and non-Hermitian rho, every parametrised class + Unitary; exact ones inside Coq against U rho U^dagger of a "
@@ -558,6 +568,9 @@ def replay(run, data):
     if rp.get("mechanism") == "history":
         from harness import c01_history
         return c01_history.replay(run, data)
+    if rp.get("mechanism") in ("labels", "repr", "matrix_repr"):
+        from harness import c01_repr
+        return c01_repr.replay(run, data)
     if rp.get("mechanism") == "param":
         try:
             out = real_param_dm(case)
